@@ -66,6 +66,35 @@ PROP_SUITES = {
 }
 
 
+def pack_viol(rviol, scripts):
+    """attach the script + trace of each violating script (first few per property)"""
+    bytid = {s["tid"]: s for s in scripts}
+    viol = []
+    seen = {}
+    for v in sorted(rviol, key=lambda x: (x["p"], x["tid"], x["line"])):
+        k = (v["p"], v["tid"])
+        if k in seen:
+            seen[k]["more"] = seen[k].get("more", 0) + 1
+            continue
+        nper = sum(1 for q in seen if q[0] == v["p"])
+        ent = {"p": v["p"], "tid": v["tid"], "m": v["m"], "d": v["d"], "line": v["line"]}
+        if nper < 5:
+            ent["script"] = bytid.get(v["tid"])
+            ent["trace"] = C.extract_trace(v["trace_file"], v["tid"])[:400]
+        seen[k] = ent
+        viol.append(ent)
+    return viol
+
+
+def samples_of(scripts):
+    import copy
+    out = [copy.deepcopy(scripts[i]) for i in (0, len(scripts) // 2) if i < len(scripts)]
+    for s in out:
+        if len(s.get("ops", [])) > 12:
+            s["ops"] = s["ops"][:12] + [{"o": "... (%d more ops)" % (len(s["ops"]) - 12)}]
+    return out
+
+
 def run_suite(name, tier, seed):
     kind, params = SUITES[tier][name]
     key = C.suite_key("world-" + name, params, seed, tier)
@@ -92,27 +121,8 @@ def run_suite(name, tier, seed):
                                    max_live=params.get("max_live", 14))
     r = C.exec_and_validate("world", scripts, workdir, MODULE, CFG)
     res.update(n_scripts=r["n_scripts"], n_events=r["n_events"], wall_s=r["wall_s"])
-    # attach the script + trace of each violating script (first few per property)
-    bytid = {s["tid"]: s for s in scripts}
-    viol = []
-    seen = {}
-    for v in sorted(r["viol"], key=lambda x: (x["p"], x["tid"], x["line"])):
-        k = (v["p"], v["tid"])
-        if k in seen:
-            seen[k]["more"] = seen[k].get("more", 0) + 1
-            continue
-        nper = sum(1 for q in seen if q[0] == v["p"])
-        ent = {"p": v["p"], "tid": v["tid"], "m": v["m"], "d": v["d"], "line": v["line"]}
-        if nper < 5:
-            ent["script"] = bytid.get(v["tid"])
-            ent["trace"] = C.extract_trace(v["trace_file"], v["tid"])[:400]
-        seen[k] = ent
-        viol.append(ent)
-    res["viol"] = viol
-    res["samples"] = [scripts[i] for i in (0, len(scripts) // 2) if i < len(scripts)]
-    for s in res["samples"]:
-        if len(s.get("ops", [])) > 12:
-            s["ops"] = s["ops"][:12] + [{"o": "... (%d more ops)" % (len(s["ops"]) - 12)}]
+    res["viol"] = pack_viol(r["viol"], scripts)
+    res["samples"] = samples_of(scripts)
     C.sh(["rm", "-rf", workdir])
     C.cache_put(key, res)
     return res
